@@ -1,5 +1,6 @@
 import FCA.Proofs.Dot
 import FCA.Props.C10
+import FCA.Props.C11
 /-
 C20 — The Graphviz export (`visualize.lattice`, `Lattice.graphviz()`) is a faithful drawing of the
 labelled Hasse diagram.
@@ -257,6 +258,33 @@ example : dotItems (mkLattice C10_exK2) =
      .node 2, .objectLabel 2 [1], .propertyLabel 2 [1], .edge 2 0,
      .node 3, .edge 3 1, .edge 3 2] := eq_of_beq (by decide +kernel)
 
+/-! ### a lattice loaded from its serialized form is drawn the same -/
+
+/-- `graphviz()` of a lattice rebuilt by `Lattice._fromlist` — from the stored list in canonical order
+(`fromStored … false`), or from ANY rearrangement of the stored concepts and of their index tuples
+through the re-sorting path (`fromStored … true`) — emits exactly the statements of `Context.lattice`;
+so every theorem of C20 holds for loaded lattices too -/
+theorem C20_loaded_lattice {K : Ctx} (hK : K.WF) :
+    dotItems (fromStored K (toStored K (mkLattice K)) false) = dotItems (mkLattice K) ∧
+    (∀ (st' : List Stored) (perm newpos : Nat → Nat),
+      StoredShuffle (toStored K (mkLattice K)) st' perm newpos →
+      dotItems (fromStored K st' true) = dotItems (mkLattice K)) := by
+  refine ⟨by rw [C11_roundtrip_ordered hK], fun st' perm newpos hs => ?_⟩
+  rw [C11_roundtrip_raw hK hs]
+
+/-- e.g. the unshuffled stored form through the re-sorting path -/
+theorem C20_loaded_lattice_raw {K : Ctx} (hK : K.WF) :
+    dotItems (fromStored K (toStored K (mkLattice K)) true) = dotItems (mkLattice K) :=
+  (C20_loaded_lattice hK).2 _ id id (C11_shuffle_refl _)
+
+/-- non-vacuity: the shuffled stored form of C11's example (concepts in the order 4, 0, 5, 2, 1, 3, all
+tuples rearranged), by the theorem and by evaluation -/
+example : dotItems (fromStored C11_exK C11_exShuffled true) = dotItems (mkLattice C11_exK) :=
+  (C20_loaded_lattice C11_exK_WF).2 _ _ _ C11_exShuffle
+example : (dotItems (fromStored C11_exK C11_exShuffled true) == dotItems (mkLattice C11_exK)) = true := by
+  decide +kernel
+example : (dotItems (mkLattice C11_exK)).countP C20.isEdge = 7 := by decide +kernel
+
 end FCA
 
 #print axioms FCA.C20_nodup
@@ -278,3 +306,5 @@ end FCA
 #print axioms FCA.C20_count
 #print axioms FCA.C20_count_covering_pairs
 #print axioms FCA.C20_count_covering_extents
+#print axioms FCA.C20_loaded_lattice
+#print axioms FCA.C20_loaded_lattice_raw
